@@ -96,8 +96,12 @@ fn single_case(a: &[Rat]) -> Result<(), String> {
         ensure!(va.sum() == a.iter().fold(r(0), |s, x| s + *x), "sum");
         ensure!(va.product() == a.iter().fold(r(1), |s, x| s * *x), "product");
     } else {
-        // the empty sum / product / search have no value: a panic is accepted, a returned value is not
-        ensure!(catch(|| va.sum()).is_err(), "sum of an empty vector returned a value");
+        // the empty sum is 0 and the empty product 1 (their definitions); a search in nothing has no index: a panic is accepted,
+        // a returned index is not
+        let es = catch(|| va.sum()).map_err(|p| format!("sum() of the empty vector panicked: {}", p))?;
+        ensure!(es == r(0), "sum() of the empty vector = {}", es);
+        let ep = catch(|| va.product()).map_err(|p| format!("product() of the empty vector panicked: {}", p))?;
+        ensure!(ep == r(1), "product() of the empty vector = {}", ep);
         ensure!(catch(|| va.find(r(1))).is_err(), "find in an empty vector returned an index");
     }
     // find: first match, else last index
@@ -146,7 +150,8 @@ fn norms_case(x: &[f64]) -> Result<(), String> {
     if n > 0 {
         ensure!(v.norm_inf() == ninf, "norm_inf {} expected {}", v.norm_inf(), ninf);
     } else {
-        ensure!(catch(|| v.norm_inf()).is_err(), "norm_inf of an empty vector returned a value");
+        let e = catch(|| v.norm_inf()).map_err(|p| format!("norm_inf() of the empty vector panicked: {}", p))?;
+        ensure!(e == 0.0, "norm_inf() of the empty vector = {} (every other norm of it is 0)", e);
     }
     for p in [1.0, 1.5, 2.0, 3.0, 8.0] {
         let want = x.iter().map(|t| t.abs().powf(p)).sum::<f64>().powf(1.0 / p);
@@ -334,7 +339,8 @@ fn complex_case(a: &[CQ], b: &[CQ]) -> Result<(), String> {
         ensure!(c_eq(sm, a.iter().fold(CQ::zero(), |s, z| s.add(*z))), "sum = {}", sm);
         ensure!(c_eq(pr, a.iter().fold(cq(1, 0), |s, z| s.mul(*z))), "product = {}", pr);
     } else {
-        ensure!(catch(|| va.norm_inf()).is_err(), "norm_inf of an empty complex vector returned a value");
+        let e = catch(|| va.norm_inf()).map_err(|p| format!("norm_inf() of the empty complex vector panicked: {}", p))?;
+        ensure!(e == 0.0, "norm_inf() of the empty complex vector = {}", e);
     }
     let cj = va.conj();
     let re = va.real();
